@@ -263,3 +263,32 @@ func VerifHarness_C05_DateOnlyDateTimesFromElements() {
 	verifCheckPair(a, b, cmp, defined)
 	verifrt.Reach("end")
 }
+
+// C05-E1: a number against a Quantity. A number converts implicitly to a Quantity of unit '1' (FHIRPath N1 5.1), so it
+// can equal or be ordered against a Quantity of that unit only: "Quantities only within one unit (otherwise empty)".
+func VerifHarness_C05_NumberVsQuantity() {
+	var n Any
+	var nv int64 // value * 10
+	if verifrt.NondetBool("isInteger") {
+		i := verifrt.NondetIntRange("i", -1000, 1000)
+		n, nv = Integer(i), int64(i)*10
+	} else {
+		d := verifrt.NondetDecimalDigits("d", 1, 4)
+		n, nv = Decimal(d), d.Coefficient().Int64()
+	}
+	unit := []string{"1", "mg", "", "year"}[verifrt.Choose("unit", 4)]
+	verifrt.Tag("unitName", unit)
+	qd := verifrt.NondetDecimalDigits("q", 1, 4)
+	q := Quantity{Decimal(qd), unit}
+	qv := qd.Coefficient().Int64()
+	eq, has := TryEqual(n, q)
+	eq2, has2 := TryEqual(q, n)
+	if unit == "1" {
+		verifrt.Assert(has && has2 && eq == (nv == qv) && eq2 == (nv == qv), "number-equals-unit-one-quantity-by-value")
+	} else {
+		verifrt.Assert(!(has && eq) && !(has2 && eq2), "number-never-equals-a-quantity-of-another-unit")
+		_, err := q.Less(Normalize(n, q))
+		verifrt.Assert(err != nil, "number-is-not-ordered-against-a-quantity-of-another-unit")
+	}
+	verifrt.Reach("end")
+}
